@@ -294,6 +294,15 @@ func Check(prop, tier string, casesOverride int, jobs int) int {
 		}
 		return Finding{}, false
 	}
+	knownOther := func(v det.Violation) bool {
+		for _, f := range findings {
+			if f.Status == "known" && f.Property == v.Prop && globMatch(f.Signature, v.Signature) {
+				return true
+			}
+		}
+		return false
+	}
+	tainted := 0
 	obs := map[string]int64{}
 	distinct := map[string]bool{}
 	var samples []interface{}
@@ -364,9 +373,20 @@ func Check(prop, tier string, casesOverride int, jobs int) int {
 		if len(cl.Violations) > 0 && cl.Replay == "" {
 			cl.Replay = writeCaseReplay(replayDir, prop, tier, cl)
 		}
+		// a known finding of another property corrupts the state: later violations of this property in the same case are tainted
+		taintStep := -1
+		for _, v := range cl.Violations {
+			if v.Prop != prop && knownOther(v) && (taintStep < 0 || v.Step < taintStep) {
+				taintStep = v.Step
+			}
+		}
 		for _, v := range cl.Violations {
 			if v.Prop != prop {
 				otherProps[v.Prop]++
+				continue
+			}
+			if taintStep >= 0 && v.Step > taintStep {
+				tainted++
 				continue
 			}
 			bySig[v.Signature] = append(bySig[v.Signature], vrec{v, cl.Replay, cl.Seed})
@@ -412,6 +432,7 @@ func Check(prop, tier string, casesOverride int, jobs int) int {
 		"known_findings_hit":  knownHit,
 		"violation_signatures": sigs,
 		"violations_of_other_properties_seen": otherProps,
+		"violations_discarded_as_tainted_by_known_finding_of_other_property": tainted,
 		"diagnostics": map[string]interface{}{},
 	}
 	if len(states) > 0 {
